@@ -15,6 +15,10 @@ CHECKS = {
             "explicit-state exploration + exhaustive second-use attack menu against the real ValidateBlock at every reachable state",
             "At every distinct state of a union-alphabet exploration, for one canonical live element of every kind, every ordered pair (first use, second use) x every placement (same transaction, same block, next block stale proof, next block maintained proof, after reorg) is built, re-signed and sealed; all must be rejected, and each use alone (control) must be accepted. Along all accepted histories the reference ledger never sees an element spent twice.",
             "Control experiments guard against vacuous rejections; bounds H/D/K as reported in evidence.", "3/C02"),
+    "C03": ("E1", "model_checking",
+            "exhaustive single-point tampering (reflection walk + structured substitutions + compensating value moves) of 20 signed templates at one state per height of every network family, through the real ValidateBlock",
+            "At every height of each network family (contracts formed and keys rotated on the way) every applicable signed template - v1 whole/partial/multisig/timelocked/siafund/dev-address/revision/foundation, v2 pk/threshold+opaque/hash-lock/above-after/legacy-uc/siafund/formation/revision/renewal/attestation/foundation - is accepted untampered and rejected after every single-point tampering of any field in its signed set (block re-sealed, never re-signed), after every sum-preserving move of one hasting between two currency fields, after substituting other keys/policies/opaque branches/surplus or garbage signatures; foundation updates authorised by non-foundation keys are rejected; v1 signatures are not replayable across fork eras.",
+            "Fields outside a template's signed set are counted as unspecified. Known finding: v1 signature length is not checked (trailing bytes ignored). Panics under tampering are left to C10.", "3/C03"),
     "C04": ("E1", "model_checking",
             "explicit-state exploration + exhaustive single-mutation menu (reflection walk) through the three membership doors of the real code",
             "At every distinct state (all six leaf kinds; live, spent, resolved, reverted-branch elements; leaf positions in the state key) every tracked element is presented unmodified (accepted iff live per reference ledger) and under every single field / index / proof mutation (rejected) to ValidateTransactionElements; one canonical element per kind under every mutation to ValidateV2Transaction (re-balanced, re-signed) and to ValidateBlock's v1 supplement check.",
